@@ -1,0 +1,52 @@
+//go:build verif
+
+// Contracts for package cookies, checked by /verif/govc (comment-only file; no code).
+package cookies
+
+// A Cookie header value is a list of parts separated by ';'. A part whose trimmed text t = tpTrim(part) is not empty
+// denotes the pair (ckName, ckValue): the name is the trimmed text before the first '=' of t (all of t when there is
+// no '=': the pair is kept with the value ""), the value is the text after that '=' (byte-exact, not decoded).
+// ckClean(s) / ckEqClean(s): s contains no ';' / no '='.
+//@ spec ckClean(s string) bool
+//@ axiom ckCleanDef: forall s string :: ckClean(s) <==> (forall k int :: 0 <= k && k < len(s) ==> s[k] != ';')
+//@ spec ckEqClean(s string) bool
+//@ axiom ckEqCleanDef: forall s string :: ckEqClean(s) <==> (forall k int :: 0 <= k && k < len(s) ==> s[k] != '=')
+// ckNameT(t) / ckValueT(t): name and value of the trimmed part t, split at its first '=' (position f-1).
+//@ spec ckNameT(t string) string
+//@ spec ckValueT(t string) string
+//@ axiom ckSplit: forall t string, f int :: 1 <= f && f <= len(t) && t[f-1] == '=' && ckEqClean(t[0:f-1]) ==>
+//@     ckNameT(t) == tpTrim(t[0:f-1]) && ckValueT(t) == t[f:len(t)]
+//@ axiom ckWhole: forall t string :: ckEqClean(t) ==> ckNameT(t) == tpTrim(t) && ckValueT(t) == ""
+//@ define ckName(part string) string := ckNameT(tpTrim(part))
+//@ define ckValue(part string) string := ckValueT(tpTrim(part))
+//@ define ckPart(part string, k string) int := ite(len(tpTrim(part)) > 0 && k == ckName(part), 1, 0)
+
+// ckLen(s, k): how many parts of s denote a pair named k -- by recursion on the split of s at its first ';' (position f-1; the rest starts at f).
+//@ spec ckLen(s string, k string) int
+//@ axiom ckLenLast: forall s string, k string :: ckClean(s) ==> ckLen(s, k) == ckPart(s, k)
+//@ axiom ckLenSep: forall s string, k string, f int :: 1 <= f && f <= len(s) && s[f-1] == ';' && ckClean(s[0:f-1]) ==>
+//@     ckLen(s, k) == ckPart(s[0:f-1], k) + ckLen(s[f:len(s)], k)
+
+// ckFirst(s, rest): the first part of s when the loop of ParseCookies continues with `rest`.
+// (rest == "" and s does not end in ';': no separator was found and the first part is all of s.)
+//@ define ckFirst(s string, rest string) string := ite(len(rest) == 0 && (len(s) == 0 || s[len(s)-1] != ';'), s, s[0:len(s) - len(rest) - 1])
+
+// ParseCookies (C03): every non-blank part is stored exactly once under its trimmed name -- for every name k the number
+// of values stored under k is the number of parts named k, no other key is in the map, and at the end of the iteration
+// that consumes a part the last value of its name is that part's value. `named` is what the code documents (parts
+// with an empty name such as "=v" are skipped); `noSilentDrop` is the property: no non-blank part vanishes.
+//@ func ParseCookies props C03,C07
+//@   ensures notnil: result != nil && fresh(result)
+//@   ensures noEmptyName: !has(result, "")
+//@   ensures named: forall k string :: k != "" ==> (has(result, k) <==> ckLen(tpTrim(rawCookies), k) > 0) &&
+//@       (has(result, k) ==> len(result[k]) == ckLen(tpTrim(rawCookies), k))
+//@   ensures noSilentDrop: forall k string :: ckLen(tpTrim(rawCookies), k) > 0 ==> has(result, k)
+//@   loop 1
+//@     invariant nonempty: forall k string :: has(cookies, k) ==> len(cookies[k]) > 0
+//@     invariant noEmptyName: !has(cookies, "")
+//@     invariant counts: forall k string :: k != "" ==>
+//@         ckLen(tpTrim(old(rawCookies)), k) == ckLen(rawCookies, k) + ite(has(cookies, k), len(cookies[k]), 0)
+//@     step partIs: part == tpTrim(ckFirst(prev(rawCookies), rawCookies))
+//@     step stored: len(part) > 0 && ckNameT(part) != "" ==> has(cookies, ckNameT(part)) &&
+//@         cookies[ckNameT(part)][len(cookies[ckNameT(part)]) - 1] == ckValueT(part)
+//@     decreases len(rawCookies)
